@@ -35,6 +35,10 @@ func c12GenHooks(r *rand.Rand, variant int, focus []string, max int) []eng.Hook 
 	if n == 0 && r.Intn(3) > 0 {
 		n = 1 + r.Intn(max)
 	}
+	hasTest := false // the history runs helm test: hooks of event test are executed too
+	for _, e := range focus {
+		hasTest = hasTest || e == "test"
+	}
 	raw := r.Intn(2) == 0 // the chart spells its hook metadata as annotation strings (c12_meta.go)
 	pal := c12WeightPalettes[r.Intn(len(c12WeightPalettes))]
 	suffix := ""
@@ -51,6 +55,9 @@ func c12GenHooks(r *rand.Rand, variant int, focus []string, max int) []eng.Hook 
 				e = focus[r.Intn(len(focus))]
 			} else {
 				e = c12AllEvents[r.Intn(len(c12AllEvents))]
+				if r.Intn(10) == 0 {
+					e = "test"
+				}
 			}
 			dup := false
 			for _, x := range h.Events {
@@ -69,7 +76,7 @@ func c12GenHooks(r *rand.Rand, variant int, focus []string, max int) []eng.Hook 
 			r.Shuffle(len(h.Policies), func(a, b int) { h.Policies[a], h.Policies[b] = h.Policies[b], h.Policies[a] })
 		}
 		if raw {
-			h = c12RawOf(r, h, pal)
+			h = c12RawOf(r, h, pal, hasTest)
 		}
 		out = append(out, h)
 	}
@@ -115,7 +122,7 @@ func c12SpellList(r *rand.Rand, toks []string) string {
 }
 
 // c12RawOf: the same hook with its metadata spelled as annotation strings
-func c12RawOf(r *rand.Rand, h eng.Hook, pal []string) eng.Hook {
+func c12RawOf(r *rand.Rand, h eng.Hook, pal []string, hasTest bool) eng.Hook {
 	evs := append([]string{}, h.Events...)
 	for i, e := range evs {
 		if e == "test" && r.Intn(2) == 0 {
@@ -133,7 +140,13 @@ func c12RawOf(r *rand.Rand, h eng.Hook, pal []string) eng.Hook {
 	if len(pol) > 0 {
 		kv = append(kv, "d", c12SpellList(r, pol))
 		if !policyExpressible(annTokens(kv[1])) {
-			evs = []string{"test"} // unknown tokens only: no default and no policy - outside the engine model's hook record; parsed, never run
+			// unknown tokens only: no default and no policy - outside the engine model's hook record; parsed, never run
+			// (event test in a history without helm test; with helm test a known policy is added instead)
+			if hasTest {
+				kv[1] += ",hook-failed"
+			} else {
+				evs = []string{"test"}
+			}
 		}
 	}
 	if r.Intn(12) > 0 { // else: no weight annotation
@@ -171,7 +184,11 @@ func c12Gen(r *rand.Rand) eng.History {
 		if i == 0 && r.Intn(8) > 0 {
 			kinds[i] = "install"
 		} else {
-			kinds[i] = []string{"install", "upgrade", "upgrade", "rollback", "rollback", "uninstall", "uninstall"}[r.Intn(7)]
+			kinds[i] = []string{"install", "upgrade", "upgrade", "rollback", "rollback", "uninstall", "uninstall", "test"}[r.Intn(8)]
+		}
+		if kinds[i] == "test" {
+			focus = append(focus, "test", "test")
+			continue
 		}
 		ev := c12Events[kinds[i]]
 		focus = append(focus, ev[0], ev[1])
@@ -205,11 +222,35 @@ func c12Gen(r *rand.Rand) eng.History {
 		}
 		// the hooks this operation can run
 		cand := op.Hooks
-		if kind == "rollback" || kind == "uninstall" {
+		if kind == "rollback" || kind == "uninstall" || kind == "test" {
 			cand = pool
 		}
 		var rel []eng.Hook
 		ev := c12Events[kind]
+		if kind == "test" {
+			// helm test: no flags; name filters over the hook names seen so far (and a name no hook has)
+			op.Flags = eng.Flags{}
+			ev = [2]string{"test", "test"}
+			pick := func() []string {
+				var out []string
+				for n := 1 + r.Intn(2); n > 0; n-- {
+					if len(pool) > 0 && r.Intn(6) > 0 {
+						out = append(out, pool[r.Intn(len(pool))].Res.Name)
+					} else {
+						out = append(out, "hnone")
+					}
+				}
+				return out
+			}
+			switch r.Intn(6) {
+			case 0, 1:
+				op.TestInclude = pick()
+			case 2, 3:
+				op.TestExclude = pick()
+			case 4:
+				op.TestInclude, op.TestExclude = pick(), pick()
+			}
+		}
 		for _, x := range cand {
 			for _, e := range x.Events {
 				if e == ev[0] || e == ev[1] {
